@@ -3,6 +3,8 @@ import MesaModel.Proofs.LegacyOrth
 import MesaModel.Proofs.LegacyHex
 import MesaModel.Proofs.LegacyNet
 import MesaModel.Proofs.LegacyDist
+import MesaModel.Proofs.LegacyNetState
+import MesaModel.Proofs.LegacyIndex
 /-!
 # C09 — legacy neighbourhood queries return exactly the cells/agents in range
 
@@ -83,6 +85,16 @@ theorem C09_neighbors_spec (g : Grid) (hi : Inv g) (cells : List Coord) (hnd : c
     cellsContents g cells = cells.flatMap g.content :=
   ⟨(cellsContents_spec g hi cells hnd).1, (cellsContents_spec g hi cells hnd).2, cellsContents_eq g hi cells⟩
 
+/-- **`get_cell_list_contents` / `iter_cell_list_contents` for arbitrary integer coordinates** (they index
+    `self._grid[x][y]` directly): in-grid coordinates are read as they are — the answer is `cellsContents` of the
+    list, specified by `C09_neighbors_spec` —; whenever the call returns, every coordinate denoted a cell of the
+    grid (Python's aliasing of `-size .. -1`); a coordinate beyond that raises IndexError and nothing is returned -/
+theorem C09_cell_list_contents_any_integers (g : Grid) (hw : 0 < g.w) (hh : 0 < g.h) (ps : List Coord) :
+    ((∀ p ∈ ps, g.inGrid p) → g.rawCells ps = .ok ps) ∧
+    (∀ cs, g.rawCells ps = .ok cs → cs.length = ps.length ∧ ∀ c ∈ cs, g.inGrid c) ∧
+    ((∃ p ∈ ps, p.1 < -g.w ∨ g.w ≤ p.1 ∨ p.2 < -g.h ∨ g.h ≤ p.2) → ∃ e, g.rawCells ps = .error e) :=
+  ⟨rawCells_inGrid g ps, rawCells_ok g ps, rawCells_error g hw hh ps⟩
+
 /-- so the neighbours of a query are the agents standing on cells in range -/
 theorem C09_get_neighbors_exact (g : Grid) (hi : Inv g) (hw : 0 < g.w) (hh : 0 < g.h) (k : NKey) (l : List Coord)
     (h : nbhdCompute g.dim k = .ok l) (a : Aid) :
@@ -94,6 +106,24 @@ theorem C09_get_neighbors_exact (g : Grid) (hi : Inv g) (hw : 0 < g.w) (hh : 0 <
   · rintro ⟨c, hp, h1, h2⟩
     have hcg : g.inGrid c := hi.in_grid c (List.ne_nil_of_mem ((hi.pos_content a c).mp hp))
     exact ⟨c, (hmem c).mpr ⟨hcg, h1, h2⟩, hp⟩
+
+/-- **hex `get_neighbors` / `iter_neighbors`**: for a centre in the grid every cell of the neighbourhood is a cell
+    of the grid, so the raw indexing of `iter_cell_list_contents` reads exactly those cells, and the agents returned
+    are exactly the agents standing on hexagons within r steps (centre by flag), each once -/
+theorem C09_hex_get_neighbors_exact (g : Grid) (hi : Inv g) (hw : 0 < g.w) (hh : 0 < g.h) (pos : Coord) (hpos : g.inGrid pos)
+    (ic : Bool) (r : Nat) :
+    hexNeighbors g (hexCompute g.dim pos ic r) = .ok (cellsContents g (hexCompute g.dim pos ic r)) ∧
+    (cellsContents g (hexCompute g.dim pos ic r)).Nodup ∧
+    ∀ a, a ∈ cellsContents g (hexCompute g.dim pos ic r) ↔
+      ∃ c, g.pos a = some c ∧ (c = pos → ic = true) ∧ (c ≠ pos → Reach (hexNbrs g.dim) r pos c) := by
+  obtain ⟨hsorted, hmem⟩ := hex_spec g.dim pos ic r
+  have hin : ∀ c ∈ hexCompute g.dim pos ic r, g.inGrid c := hex_inGrid g.dim hw hh pos hpos ic r
+  obtain ⟨h1, h2⟩ := cellsContents_spec g hi _ hsorted.nodup
+  refine ⟨by unfold hexNeighbors; rw [rawCells_inGrid g _ hin], h1, fun a => ?_⟩
+  rw [h2]
+  constructor
+  · rintro ⟨c, hc, hp⟩; exact ⟨c, hp, (hmem c).mp hc⟩
+  · rintro ⟨c, hp, hc⟩; exact ⟨c, (hmem c).mpr hc, hp⟩
 
 /-- **NetworkGrid: exactly the nodes within r hops**, for any implementation `within` of
     `single_source_shortest_path_length(G, v, r).keys()` that meets its specification; the radius-1 special
@@ -109,6 +139,33 @@ theorem C09_network_all_simple_graphs (t : Net) (hs : SimpleEdges t.edges) (v : 
     (t.nbhd v ic r).Nodup ∧ ∀ u, u ∈ t.nbhd v ic r ↔ (u = v → ic = true) ∧ (u ≠ v → Reach (adjOf t.edges) r v u) :=
   net_nbhd_spec t hs v ic r
 
+/-- **NetworkGrid `get_neighbors` / `get_cell_list_contents` return exactly the agents occupying those nodes**:
+    for any state whose views agree (every reachable one, `C08_network_views_agree_all_histories`) and any
+    duplicate-free list of nodes, the agents returned are the agents whose `pos` is one of the nodes, each once,
+    node by node in list order; a node that does not exist raises KeyError -/
+theorem C09_network_contents_spec (t : Net) (hi : NetInv t) (nodes : List Nat) :
+    (nodes.Nodup → (t.cellsContents nodes).Nodup ∧ ∀ a, a ∈ t.cellsContents nodes ↔ ∃ u ∈ nodes, t.pos a = some u) ∧
+    t.cellsContents nodes = nodes.flatMap t.content ∧
+    ((∀ u ∈ nodes, u < t.n) → t.getCellListContents nodes = .ok (t.cellsContents nodes)) ∧
+    ((∃ u ∈ nodes, ¬ u < t.n) → t.getCellListContents nodes = .error .key) := by
+  refine ⟨net_cellsContents_spec t hi nodes, net_cellsContents_eq t nodes, ?_, ?_⟩
+  · intro h; unfold Net.getCellListContents; rw [if_pos]; simpa using h
+  · rintro ⟨u, hu, hlt⟩; unfold Net.getCellListContents; rw [if_neg]
+    simp only [List.all_eq_true, decide_eq_true_eq]; intro h; exact hlt (h u hu)
+
+/-- so the NetworkGrid neighbours of a query are the agents standing on nodes within r hops (centre by flag) -/
+theorem C09_network_neighbors_exact (t : Net) (hi : NetInv t) (hs : SimpleEdges t.edges) (v : Nat) (ic : Bool) (r : Nat) :
+    (t.cellsContents (t.nbhd v ic r)).Nodup ∧
+    ∀ a, a ∈ t.cellsContents (t.nbhd v ic r) ↔
+      ∃ u, t.pos a = some u ∧ (u = v → ic = true) ∧ (u ≠ v → Reach (adjOf t.edges) r v u) := by
+  obtain ⟨hnd, hmem⟩ := net_nbhd_spec t hs v ic r
+  obtain ⟨h1, h2⟩ := net_cellsContents_spec t hi _ hnd
+  refine ⟨h1, fun a => ?_⟩
+  rw [h2]
+  constructor
+  · rintro ⟨u, hu, hp⟩; exact ⟨u, hp, (hmem u).mp hu⟩
+  · rintro ⟨u, hp, hu⟩; exact ⟨u, (hmem u).mpr hu, hp⟩
+
 /-! ## non-vacuity -/
 
 /-- a 2-wide torus with radius 2 > size: wrapped offsets collide, the result still has each cell once -/
@@ -119,5 +176,21 @@ example : hexCompute ⟨4, 4, true⟩ (0, 0) false 1 = [(0, 1), (0, 3), (1, 0), 
 example : SimpleEdges [(2, 1), (1, 0), (3, 1)] := by unfold SimpleEdges; decide
 example : (Net.init 4 [(2, 1), (1, 0), (3, 1)]).nbhd 1 true 1 = [2, 0, 3, 1] := by decide
 example : 3 ∈ ball (adjOf [(2, 1), (1, 0), (3, 1)]) 2 0 := by decide
+example : (init 3 2 false true 11).rawCells [(-1, -1), (0, 0)] = .ok [(2, 1), (0, 0)] := by rfl
+example : (init 3 2 false true 11).rawCells [(0, 0), (3, 0)] = .error .index := by rfl
+/-- MultiGrid with several agents on the centre cell: with `include_center` the cell mates (and the asking agent itself)
+    are returned, in the cell's list order at the centre's place in the neighbourhood; without it none of them -/
+example : (match nbhdCompute ⟨3, 3, false⟩ ⟨(1, 1), false, true, 1⟩ with
+    | .ok l => cellsContents (run (init 3 3 false true 18) [.place 0 (1, 1), .place 1 (1, 1), .place 2 (0, 1), .place 3 (1, 1)]) l
+    | .error _ => []) = [2, 0, 1, 3] := by decide
+example : (match nbhdCompute ⟨3, 3, false⟩ ⟨(1, 1), false, false, 1⟩ with
+    | .ok l => cellsContents (run (init 3 3 false true 18) [.place 0 (1, 1), .place 1 (1, 1), .place 2 (0, 1), .place 3 (1, 1)]) l
+    | .error _ => []) = [2] := by decide
+/-- a centre outside a bounded hex grid with `include_center`: the centre is in the list and `get_neighbors` aliases it -/
+example : hexCompute ⟨3, 3, false⟩ (-1, 0) true 1 = [(-1, 0), (0, 0)] := by decide
+example : hexNeighbors (run (init 3 3 false true 18) [.place 0 (2, 0)]) [(-1, 0), (0, 0)] = .ok [0] := by rfl
+/-- two agents on one node, one on another: the neighbours of node 0 within one hop, in `G.neighbors` order -/
+example : (nrun (Net.init 4 [(2, 1), (1, 0), (3, 1)]) [.place 0 1, .place 1 3, .place 2 1]).cellsContents
+    ((Net.init 4 [(2, 1), (1, 0), (3, 1)]).nbhd 0 true 1) = [0, 2] := by decide
 
 end Mesa.Legacy
